@@ -109,16 +109,26 @@ _MISSING = object()
 
 
 class _Obj:
-    """instance of a class of the analysed module."""
+    """instance of a class of the analysed module (owner: the evaluator of the module that defines the class - None: whoever evaluates)."""
 
-    def __init__(self, cls):
+    def __init__(self, cls, owner=None):
         self.cls = cls
         self.fields = {}
+        self.owner = owner
 
 
 class _Cls:
-    def __init__(self, node):
+    def __init__(self, node, owner=None):
         self.node = node
+        self.owner = owner
+
+
+class _Mod:
+    """a COLLABORATING module of the analysed one (`from esrally.utils import versions`), recognised through the import table: what is read from it is evaluated by that
+    module's own evaluator (its definitions, its stubs) - the inlined / renamed helper of the other module is followed like a helper of the same module."""
+
+    def __init__(self, interp):
+        self.interp = interp
 
 
 class _Raised(Exception):
@@ -149,7 +159,7 @@ class _Continue(_Ctl):
 
 def _plain(v, d=0):
     """a concrete Python value whose operators / methods behave exactly as in the analysed program."""
-    if isinstance(v, (_Obj, _Cls, _Opaque, minieval.Record)):
+    if isinstance(v, (_Obj, _Cls, _Mod, _Opaque, minieval.Record)):
         return False
     if isinstance(v, (list, tuple, set, frozenset)):
         return d > 4 or all(_plain(x, d + 1) for x in v)
@@ -219,9 +229,10 @@ def _own_nodes(func):
 
 
 class Interp:
-    def __init__(self, mod, stubs=None, budget=60000, hierarchy=None):
+    def __init__(self, mod, stubs=None, budget=60000, hierarchy=None, modules=None):
         self.mod = mod
         self.stubs = dict(stubs or {})
+        self.modules = dict(modules or {})  # qualified module name -> the evaluator of that collaborating module
         self.hierarchy = dict(hierarchy or {})  # exception classes of a collaborating module (name -> ClassDef): only their base chains are read
         self.budget = budget
         self.funcs = {n.name: n for n in mod.tree.body if isinstance(n, ast.FunctionDef)}
@@ -256,6 +267,37 @@ class Interp:
         if base is None:
             return None
         return base + ("." + rest if rest else "")
+
+    def imported(self, e, env):
+        """the value of a name / attribute chain that the import table resolves to a collaborating module (`versions`) or to a definition of one
+        (`from esrally.utils.versions import VersionVariants`); _MISSING for everything else. Never the spelling of the local name: the import table decides."""
+        if not self.modules:
+            return _MISSING
+        q = self.qualified(e, env)
+        if q is None:
+            return _MISSING
+        if q in self.modules:
+            return _Mod(self.modules[q])
+        modname, _, attr = q.rpartition(".")
+        if modname in self.modules:
+            return self.modules[modname].exported(attr)
+        return _MISSING
+
+    def exported(self, name):
+        """what a collaborating module reads as `<this module>.<name>`: a function / class / constant DEFINED here (or one of this evaluator's reference stubs), evaluated here."""
+        if name not in self.stubs and name not in self.funcs and name not in self.classes and name not in self.consts:
+            raise CannotEval(f"{self.mod.relpath} defines no {name}")
+        self.budget = max(self.budget, 60000)  # (every read from the other module starts with a full step budget here; the call depth bounds recursion)
+        return self.ev(ast.Name(id=name, ctx=ast.Load()), {})
+
+    def owner_of(self, t):
+        """the evaluator (this one or a collaborating one) that built the real named tuple / enumeration type `t` from a class statement, None if there is none."""
+        if t in self._nodes:
+            return self
+        for o in self.modules.values():
+            if t in o._nodes:
+                return o
+        return None
 
     # -- the module's data model: named tuples, enumerations, dataclasses ----------------------------------------------------------------------------
     def raw_tree(self):
@@ -406,7 +448,7 @@ class Interp:
             raise CannotEval(f"dataclass {cls.name}: options {short(dec, 50)}")
         if [b for b in cls.bases if dotted(b) != "object"] or self.member(cls, "__init__") is not None:
             raise CannotEval(f"dataclass {cls.name} with bases / its own __init__")
-        o = _Obj(cls)
+        o = _Obj(cls, self)
         fields = self.record_fields(cls, "dataclass")
         pos, kw = list(args), dict(kwargs or {})
         if len(pos) > len(fields):
@@ -513,12 +555,12 @@ class Interp:
             if self.member(v.cls, "__bool__") is not None or self.member(v.cls, "__len__") is not None:
                 raise CannotEval("truth value of an object with __bool__ / __len__")
             return True
-        if isinstance(v, (_Opaque, minieval.Record)):
+        if isinstance(v, (_Opaque, _Mod, minieval.Record)):
             raise CannotEval("truth value of a value that is not modelled")
         return bool(v)
 
     def iterate(self, v, what=""):
-        if isinstance(v, (_Obj, _Cls, _Opaque, minieval.Record)):
+        if isinstance(v, (_Obj, _Cls, _Mod, _Opaque, minieval.Record)):
             raise CannotEval(f"{what}: iteration over a value that is not modelled")
         return self.apply(iter, [v], what=what)
 
@@ -667,7 +709,7 @@ class Interp:
         dec = self.dataclass_of(cls)
         if dec is not None:
             return self.instantiate_dataclass(cls, dec, args, kwargs)
-        o = _Obj(cls)
+        o = _Obj(cls, self)
         init = self.member(cls, "__init__")
         if isinstance(init, ast.FunctionDef):
             self.call_function(init, args, kwargs or {}, bound=o)
@@ -676,6 +718,10 @@ class Interp:
         return o
 
     def getattr_(self, recv, attr):
+        if isinstance(recv, _Mod):
+            return recv.interp.exported(attr)
+        if isinstance(recv, (_Obj, _Cls)) and recv.owner is not None and recv.owner is not self:
+            return recv.owner.getattr_(recv, attr)  # (methods / properties of a class of a collaborating module are evaluated by that module's evaluator)
         if isinstance(recv, _Obj):
             if attr in recv.fields:
                 v = recv.fields[attr]
@@ -684,7 +730,7 @@ class Interp:
                 return v
             m = self.member(recv.cls, attr)
             if isinstance(m, ast.FunctionDef):
-                return self.bound_member(m, recv, _Cls(recv.cls))
+                return self.bound_member(m, recv, _Cls(recv.cls, recv.owner))
             if isinstance(m, ast.Assign):
                 return self.ev(m.value, {})
             raise CannotEval(f"attribute {attr} of a {recv.cls.name} object")
@@ -708,6 +754,9 @@ class Interp:
                 return recv.__members__[attr]
             if issubclass(recv, tuple) and attr == "_fields" and hasattr(recv, "_fields"):
                 return recv._fields
+            own = self.owner_of(recv)
+            if own is not None and own is not self:
+                return own.getattr_(recv, attr)
             m = self.member(self._nodes[recv], attr) if recv in self._nodes else None
             if isinstance(m, ast.FunctionDef):
                 decs = decorator_names(m)
@@ -719,6 +768,9 @@ class Interp:
                 return getattr(recv, attr)
             if isinstance(recv, tuple) and (attr in t._fields or attr in ("_fields", "_replace", "_asdict", "index", "count")):
                 return getattr(recv, attr)
+            own = self.owner_of(t)
+            if own is not None and own is not self and not (isinstance(recv, tuple) and attr in t._fields):
+                return own.getattr_(recv, attr)
             m = self.member(self._nodes[t], attr) if t in self._nodes else None
             if isinstance(m, ast.FunctionDef):
                 return self.bound_member(m, recv, t)
@@ -822,8 +874,14 @@ class Interp:
                     args, kwargs = self.call_args(e, env, lenient=True)
                     return self.call_stub(f.attr, args, kwargs)
                 raise CannotEval(f"call {what}")
+            if isinstance(recv, _Mod) and f.attr in self.stubs:
+                # (a collaborator the rule replaces by a reference stub stays a stub: the fixed answers of a scenario are not overridden by the other module's code)
+                args, kwargs = self.call_args(e, env, lenient=True)
+                return self.call_stub(f.attr, args, kwargs)
             callee = self.getattr_(recv, f.attr)
             args, kwargs = self.call_args(e, env)
+            if isinstance(callee, _Cls):
+                return (callee.owner or self).instantiate(callee.node, args, kwargs)
             return self.apply(callee, args, kwargs, what)
         if isinstance(f, ast.Name) and f.id not in env and f.id in self.stubs:
             args, kwargs = self.call_args(e, env, lenient=True)
@@ -831,7 +889,7 @@ class Interp:
         callee = self.ev(f, env)
         args, kwargs = self.call_args(e, env)
         if isinstance(callee, _Cls):
-            return self.instantiate(callee.node, args, kwargs)
+            return (callee.owner or self).instantiate(callee.node, args, kwargs)
         if not callable(callee):
             raise CannotEval(f"call {what}")
         return self.apply(callee, args, kwargs, what)
@@ -861,7 +919,7 @@ class Interp:
                 return self.function_value(self.funcs[e.id])
             if e.id in self.classes:
                 rt = self.real_type(self.classes[e.id])
-                return rt if rt is not None else _Cls(self.classes[e.id])
+                return rt if rt is not None else _Cls(self.classes[e.id], self)
             if e.id in self.consts:
                 if e.id in self._const_busy:
                     raise CannotEval(f"recursive constant {e.id}")
@@ -874,10 +932,15 @@ class Interp:
                 return _BUILTINS[e.id]
             if self.qualified(e, env) in _STDLIB:
                 return _STDLIB[self.qualified(e, env)]
+            v = self.imported(e, env)
+            if v is not _MISSING:
+                return v
             raise CannotEval(f"unbound name {e.id}")
         if isinstance(e, ast.Attribute):
             if self.qualified(e, env) in _STDLIB:
                 return _STDLIB[self.qualified(e, env)]
+            if self.modules and self.qualified(e, env) in self.modules:
+                return _Mod(self.modules[self.qualified(e, env)])  # `esrally.utils.versions` after `import esrally.utils.versions`
             return self.getattr_(self.ev(e.value, env), e.attr)
         if isinstance(e, ast.Call):
             return self.call(e, env)
@@ -1293,14 +1356,14 @@ def run(chk):
     ver, rep, git = repo.module(_V), repo.module(_P), repo.module(_G)
     chk.use(ver, rep, git)
     chk.explanation = (
-        "Decides the matcher on VALUES: the extracted functions of versions.py (VersionVariants, best_match, latest_bounded_minor, _latest_major, variants_of) are evaluated by a "
+        "Decides the matcher on VALUES: the extracted functions of versions.py (VersionVariants, best_match, latest_bounded_minor, _latest_major, the variants helper of the tag search if there is one) are evaluated by a "
         "small local evaluator (no repository code is run; only the two regex primitives are replaced by reference stubs, helpers defined in the module are followed) on "
         "representative (branch list, version) inputs and compared with the documented outcome: variants most-specific first with formats M.m.p-s / M.m.p / M.m / M; exact "
         "match before the nearest-prior-minor fallback, which applies at the minor step only; eligibility of the bounded-minor search as a decision table over {major lower/"
         "same/higher} x {minor None/0/less/equal/greater} x {patch set?} x {suffix set?}; nearest = max of the eligible; master only under strictly-greater major (every "
         "versioned branch counted, numerically) with a master branch present / serverless / empty version; otherwise None. No version component is tested by truthiness. "
         "Repository side, on values too: RallyRepository(...).update(version) is evaluated (helper methods followed) against reference stubs of the git functions (bound through "
-        "their real signatures), of the matcher (a fixed answer per listing) and of variants_of, in 19 scenarios (remote hit / miss, no remote, already on the branch, related "
+        "their real signatures), of the matcher (a fixed answer per listing) and of variants_of (anything else update() reads from versions.py is evaluated from versions.py), in 19 scenarios (remote hit / miss, no remote, already on the branch, related "
         "branch names, tag fallback, nothing qualifies, failing checkout, fetch requested): fallback order remote < local < v-tag < raise, the checked-out ref is the matcher's "
         "result, the head revision held afterwards is the one after the last ref-changing call, checkout errors propagate, the remote listing follows a fetch. The git command "
         "lines are evaluated with recording subprocess stubs: the directory is interpolated escaped, fetch prunes and fetches tags, clone is not narrowed. Where a shape cannot "
@@ -2012,7 +2075,9 @@ def run(chk):
                  "head_revision": git_stub("head_revision", lambda src_dir: f"head@{st['movers']}"), "current_branch": git_stub("current_branch", lambda src_dir: st["current"]),
                  "tags": git_stub("tags", tag_list), "best_match": matcher, "variants_of": lambda version: ref_variants(version), "is_working_copy": lambda *a, **k: True,
                  "join": lambda *a: "/".join(a)}
-        ir = Interp(rep, stubs=stubs, hierarchy=hierarchy)
+        # (what update() and its helpers read from versions.py beyond the stubbed matcher - VersionVariants(...).all_versions in an inlined tag search, a renamed
+        # variants helper - is evaluated from versions.py by that module's evaluator)
+        ir = Interp(rep, stubs=stubs, hierarchy=hierarchy, modules={ver.modname: iv})
         me, built = None, False
         init = rep.methods(RR).get("__init__")
         if init is not None and len(params_of(init)) == 7:
@@ -2230,14 +2295,24 @@ def run(chk):
         chk.ob("O15.4", "git clone fetches every branch (no --depth / --single-branch / --branch)", not narrowing, git.func("clone"), f"command words: {ccmd[0]}" +
                ("" if not narrowing else f" — {narrowing} leaves only the default branch: the best match for every version is then the default branch"), key="esrally/utils/git.py:clone:all-branches")
 
-    # the tag search walks the variants most specific first and matches `v<variant>`: decided on values (git.tags(...) and versions.variants_of(...) are the only calls it makes;
-    # the latter is evaluated from versions.py)
+    # the tag search walks the variants most specific first and matches `v<variant>`: decided on values (git.tags(...) is stubbed; whatever it reads from versions.py - the
+    # variants helper, or VersionVariants(...).all_versions itself when that helper is inlined into the search - is evaluated from versions.py by that module's evaluator)
     ft = rep.methods(RR).get("_find_matching_tag")
-    vo = ver.func("variants_of")
+    # the variants helper(s) of versions.py are located by ROLE: functions DEFINED in versions.py that the tag search (the method, or - when the search is inlined - any method
+    # of the repository class) calls through the import table, the matcher aside. None is required to exist: without one the candidates come straight from all_versions.
+    rq = Interp(rep)
+    helpers = []
+    for f_ in ([ft] if ft is not None else list(rep.methods(RR).values())):
+        for c in walk_body(f_):
+            qn = rq.qualified(c.func) if isinstance(c, ast.Call) else None
+            if qn and qn.rpartition(".")[0] == ver.modname:
+                d_ = ver.index().get(qn.rpartition(".")[2])
+                if isinstance(d_, ast.FunctionDef) and d_ is not bm and d_ not in helpers and len(params_of(d_)) == 1:
+                    helpers.append(d_)
 
-    def variants_of(version):
+    def helper_values(vo, version):
         iv.budget = 60000
-        return list(iv.iterate(iv.call_function(vo, [version]), "variants_of"))
+        return list(iv.iterate(iv.call_function(vo, [version]), vo.name))
 
     TAG_CASES = [
         ("tags ['v8.5', 'v8', '8.5.1', 'v9.0.0'] for 8.5.1", (["v8.5", "v8", "8.5.1", "v9.0.0"], "8.5.1"), "v8.5"),
@@ -2257,22 +2332,40 @@ def run(chk):
                 raise _Raised(f"update() checks out {r['refs']} and {'returns' if r['kind'] == 'value' else 'raises'}")
             return r["refs"][0] if r["refs"] else None
 
-        table(chk, "O15.4", "tag search walks the same variants order with the 'v' prefix", TAG_CASES, up, tag_via_update)
+        tag_of, tag_node = tag_via_update, up
     else:
         def find_tag(tags, version):
-            ir = Interp(rep, stubs={"tags": lambda *a, **k: list(tags), "variants_of": variants_of})
+            ir = Interp(rep, stubs={"tags": lambda *a, **k: list(tags)}, modules={ver.modname: iv})
             me = _Obj(RR)
             me.fields.update({"repo_dir": "/repo-dir", "resource_name": "tracks", "remote": True, "offline": False, "logger": OPAQUE})
             return ir.call_function(ft, [version], bound=me)
 
-        table(chk, "O15.4", "tag search walks the same variants order with the 'v' prefix", TAG_CASES, ft, find_tag)
+        tag_of, tag_node = find_tag, ft
+    table(chk, "O15.4", "tag search walks the same variants order with the 'v' prefix", TAG_CASES, tag_node, tag_of)
+    for vo in helpers:
+        for v_ in ("8.5.1-SNAPSHOT", "7.10.2"):
+            k1, want_ = attempt(lambda: variant_values(v_))
+            k2, got_ = attempt(lambda: helper_values(vo, v_))
+            if k1 == "unknown" or k2 == "unknown":
+                chk.unknown("O15.4", f"{vo.name} cannot be evaluated ({got_ if k2 == 'unknown' else want_})", vo)
+                break
+            chk.ob("O15.4", f"{vo.name} yields all_versions in order: {v_}", k1 == "value" and k2 == "value" and got_ == want_ and len(got_) >= 3, vo, f"{vo.name}: {got_!r}; all_versions: {want_!r}")
+    # the same necessary condition observed at the search itself (with or without a variants helper in between): offered the v-tags of the variants from position i on (in
+    # the opposite order), the search selects the tag of variant i - its candidates are v + all_versions, tried in that order
     for v_ in ("8.5.1-SNAPSHOT", "7.10.2"):
         k1, want_ = attempt(lambda: variant_values(v_))
-        k2, got_ = attempt(lambda: variants_of(v_))
-        if k1 == "unknown" or k2 == "unknown":
-            chk.unknown("O15.4", f"variants_of cannot be evaluated ({got_ if k2 == 'unknown' else want_})", vo)
+        if k1 != "value" or len(want_) < 3 or not all(isinstance(w, str) for w in want_):
+            chk.unknown("O15.4", f"all_versions cannot be evaluated for {v_} ({want_}): the candidates of the tag search are not compared with it", tag_node)
             break
-        chk.ob("O15.4", f"variants_of yields all_versions in order: {v_}", k1 == "value" and k2 == "value" and got_ == want_ and len(got_) >= 3, vo, f"variants_of: {got_!r}; all_versions: {want_!r}")
+        picks = [attempt(lambda: tag_of(["v" + w for w in reversed(want_[i:])], v_)) for i in range(len(want_))]
+        undecided = [r[1] for r in picks if r[0] == "unknown"]
+        if undecided:
+            chk.unknown("O15.4", f"the tag search cannot be evaluated for {v_} ({undecided[0]})", tag_node)
+            break
+        ok = all(r[0] == "value" and r[1] == "v" + w for r, w in zip(picks, want_))
+        chk.ob("O15.4", f"tag search tries v + all_versions in order: {v_}", ok, tag_node,
+               f"all_versions: {want_!r}; selected from the tags of variants i.. : {[r[1] if r[0] == 'value' else 'raises ' + str(r[1])[:40] for r in picks]!r}",
+               key=f"{_P}:RallyRepository:tag-candidates-follow-all_versions:{v_}")
     # remote ref -> branch name: only the remote prefix (first path component) is stripped; decided on values
     crb = git.func("_cleanup_remote_branch_names")
 
@@ -2339,6 +2432,10 @@ _IMP_OLD = "import re\n"
 _VVCLS_OLD = "\n\nclass VersionVariants:\n"
 _VO_OLD = "    for v, _ in VersionVariants(version).all_versions:\n        yield v\n"
 _VO_NT = "    for variant in VersionVariants(version).all_versions:\n        yield variant.version\n"
+_VO_DEF = "def variants_of(version):\n" + _VO_OLD + "\n\n"
+# b10 shape: the variants helper of versions.py inlined into the tag search (candidates straight from VersionVariants(...).all_versions, first existing one through next())
+_FT_INLINED = ('        tags = git.tags(self.repo_dir)\n        variants = versions.VersionVariants(distribution_version)\n'
+               '        tag_candidates = [f"v{version}" for version, _ in variants.all_versions]\n        return next((tag for tag in tag_candidates if tag in tags), None)\n')
 _LOOP_OLD = ('        for version, version_type in versions.all_versions:\n            if version in available_alternatives:\n                return version\n'
              '            # match nearest prior minor\n            if version_type == "with_minor" and (latest_minor := latest_bounded_minor(available_alternatives, versions)) is not None:\n')
 _NT_CLS = 'class VersionVariant(NamedTuple):\n    """a variant of a version and its kind"""\n\n    version: str\n    version_type: str\n'
@@ -2489,6 +2586,22 @@ VARIANTS = [
     V("next()-shaped tag search without the v prefix", "break", _P, _FT_OLD,
       '        tags = set(git.tags(self.repo_dir))\n        return next((v for v in versions.variants_of(distribution_version) if v in tags), None)\n', "O15.4"),
     V("tag search prefers the LEAST specific tag", "break", _P, "        for version in versions.variants_of(distribution_version):", "        for version in reversed(list(versions.variants_of(distribution_version))):", "O15.4"),
+    # ---- benign round 4: the variants helper is not required to exist under its name - what the tag search reads from versions.py is evaluated from versions.py
+    [V("b10 shape: variants_of inlined into the tag search (VersionVariants(...).all_versions + next()), the helper removed", "keep", _P, _FT_OLD, _FT_INLINED),
+     V("", "keep", _V, _VO_DEF, "")],
+    [V("inlined tag search walks all_versions backwards (least specific tag wins)", "break", _P, _FT_OLD, _FT_INLINED.replace("in variants.all_versions]", "in reversed(variants.all_versions)]"), "O15.4"),
+     V("", "break", _V, _VO_DEF, "")],
+    [V("inlined tag search takes the kind instead of the variant from the all_versions pairs", "break", _P, _FT_OLD, _FT_INLINED.replace("for version, _ in", "for _, version in"), "O15.4"),
+     V("", "break", _V, _VO_DEF, "")],
+    [V("inlined tag search skips the most specific variant (all_versions[1:])", "break", _P, _FT_OLD, _FT_INLINED.replace("in variants.all_versions]", "in variants.all_versions[1:]]"), "O15.4"),
+     V("", "break", _V, _VO_DEF, "")],
+    [V("inlined tag search, VersionVariants imported by name (from esrally.utils.versions import VersionVariants)", "keep", _P, _FT_OLD, _FT_INLINED.replace("versions.VersionVariants(", "VersionVariants(")),
+     V("", "keep", _P, "from esrally.utils import console, git, io, versions\n", "from esrally.utils import console, git, io, versions\nfrom esrally.utils.versions import VersionVariants\n"),
+     V("", "keep", _V, _VO_DEF, "")],
+    [V("variants helper renamed consistently (variants_of -> version_variants)", "keep", _P, "versions.variants_of(distribution_version)", "versions.version_variants(distribution_version)"),
+     V("", "keep", _V, "def variants_of(version):\n", "def version_variants(version):\n")],
+    [V("renamed variants helper yields the variants least specific first", "break", _P, "versions.variants_of(distribution_version)", "versions.version_variants(distribution_version)", "O15.4"),
+     V("", "break", _V, _VO_DEF, "def version_variants(version):\n    for v, _ in reversed(VersionVariants(version).all_versions):\n        yield v\n\n\n")],
     V("current branch held in a local before the comparison", "keep", _P, "                if git.current_branch(self.repo_dir) != branch:",
       "                current = git.current_branch(self.repo_dir)\n                if current != branch:"),
     V("local holding the current branch compared by prefix", "break", _P, "                if git.current_branch(self.repo_dir) != branch:",
